@@ -1491,7 +1491,7 @@ func evalRace(a vh.Args, res *vh.Result, cases []raceCase, procs []int) {
 			allowed := map[string][]string{}
 			for _, f := range strings.Fields(model[i]) {
 				kv := strings.SplitN(f, ":", 2)
-				allowed[kv[0]] = strings.Split(kv[1], "|")
+				allowed[kv[0]] = strings.Split(kv[1], ";")
 			}
 			res.Count(fmt.Sprintf("race-gomaxprocs-%d", p), fmt.Sprintf("%d %s", p, texts[i]), true)
 			for rid, g := range got {
